@@ -13,8 +13,8 @@ META = {
                    "model for process mode: every worker starts from a copy of the parent's stream position at fork, "
                    "tasks are assigned to workers by the solver; with pairwise distinct stream elements the initial "
                    "positions must be pairwise distinct. Replays of (5) run on the real ProcessPoolExecutor.",
-    "bounds": {"quick": "<=3 pooled tasks (all 6 completion orders), workers 1..2 in the fork model; any_worker_count: agents 1..8 x workers 1..5",
-               "thorough": "<=4 pooled tasks, workers 1..3"},
+    "bounds": {"quick": "<=4 pooled tasks in get_pool_results / _generate_agents (all 24 completion orders), <=3 in greedy selection, workers 1..2 in the fork model; any_worker_count: agents 1..8 x workers 1..5",
+               "thorough": "<=5 pooled tasks (120 orders), workers 1..3"},
     "outside": "real OS scheduling, pickling failures, worker crashes; the fork assumption (Linux start method); extra "
                "random fields of agent subclasses drawn inside workers",
     "stubs": ["ThreadPoolExecutor/ProcessPoolExecutor/as_completed -> in-process pool model", "np.random.* stream model"],
@@ -47,19 +47,19 @@ def ob_generate(n, mode):
     def f():
         st = stubs.Stream("np")
         with env(stubs.numpy_stream_layer(lambda: st), stubs.pool_layer()):
-            F = [sym.real(f"F{i}") for i in range(n)]
-            t = make_task([cont()], lambda x, i: F[i])
+            # the cost identifies the evaluation (call index): no symbolic sorting is needed to match agents with calls
+            t = make_task([cont()], lambda x, i: float(i))
             o = Scripted(config(population_size=n))
             o._task, o._mode, o._workers = t, ModeSolver(mode), 2
             got = o._generate_agents(n)
             log = t.data["log"]
             if len(got) != n or len(log) != n:
                 return Failure("pooled-evaluations-lost-or-duplicated", agents=len(got), evaluations=len(log))
-            # each evaluation contributes exactly one agent: (position, cost) pairs as a multiset
-            pairs = sorted((a.position[0], a.cost) for a in got)
-            exp = sorted((log[i][0], F[i]) for i in range(n))
-            if pairs != exp:
-                return Failure("agents-are-not-exactly-the-evaluations", got=pairs, expected=exp)
+            if sorted(a.cost for a in got) != [float(i) for i in range(n)]:
+                return Failure("agents-are-not-exactly-the-evaluations", costs=costs_of(got))
+            for a in got:          # each evaluation contributes exactly one agent, carrying its own position
+                if a.position != log[int(a.cost)]:
+                    return Failure("agent-carries-the-position-of-another-evaluation", cost=a.cost, position=a.position)
             return OK
     return f
 
@@ -167,7 +167,7 @@ def twin():
 def obligations(tier):
     th = tier == "thorough"
     obs = []
-    K = 4 if th else 3
+    K = 5 if th else 4
     for k in range(1, K + 1):
         obs.append(Ob(f"pool_results[k={k}]", ob_pool_results(k), 120))
         for mode in ("thread", "process"):
